@@ -1200,6 +1200,14 @@ class _Identifiers:
 
     def visitExpression(self, node):
         self.check_declared(node)
+        # the filters of <%page expression_filter> are applied to the
+        # expression as well: their names are read in this scope
+        pagetag = getattr(self.compiler, "pagetag", None)
+        if pagetag is not None and "n" not in node.escapes_code.args:
+            declared = self.declared.union(self.locally_declared)
+            for ident in parsetree._filter_identifiers(pagetag.filter_args):
+                if ident != "context" and ident not in declared:
+                    self.undeclared.add(ident)
 
     def visitControlLine(self, node):
         self.check_declared(node)
